@@ -67,6 +67,11 @@ CLAIMS = {
         technique='differential symbolic execution (CrossHair/z3): compiled render function with a recording translation function vs reference i18n semantics',
         text='Per enumerated i18n template the solver decides, for all bindings, the number and order of translation calls and every argument (msgid, mapping, default, domain, context, target) through an argument-revealing translation function.',
         note=G_NOTE),
+    'C19': dict(
+        engine='G', level='translation_validation', design_ref='DESIGN.md 4 C19',
+        technique='differential symbolic execution (CrossHair/z3): strict vs non-strict compilation of the same template; reachability of planted invalid expressions decided by the reference interpreter over symbolic bindings',
+        text='Per enumerated template the solver decides for all bindings: valid templates render identically under both settings; a planted invalid expression is reported at construction (strict) resp. at render time iff reached, with the same token and offset.',
+        note=G_NOTE),
     'C03': dict(
         engine='X+Z', level='model_checking', design_ref='DESIGN.md 4 C03',
         technique='symbolic execution (CrossHair/z3) of iter_xml/match_tag/emitters on shape-enumerated character-symbolic strings; z3 regex inclusion from the live lexer pattern',
